@@ -41,16 +41,16 @@ func rat(s string) *big.Rat {
 
 // weights by value index of spec.V2 (table order)
 var (
-	v2AV  = []*big.Rat{rat("0.395"), rat("0.646"), rat("1.0")}                           // L A N
-	v2AC  = []*big.Rat{rat("0.35"), rat("0.61"), rat("0.71")}                            // H M L
-	v2Au  = []*big.Rat{rat("0.45"), rat("0.56"), rat("0.704")}                           // M S N
-	v2CIA = []*big.Rat{rat("0"), rat("0.275"), rat("0.660")}                             // N P C
-	v2E   = []int64{85, 90, 95, 100, 100}                                                // U POC F H ND (hundredths)
-	v2RL  = []int64{87, 90, 95, 100, 100}                                                // OF TF W U ND
-	v2RC  = []int64{90, 95, 100, 100}                                                    // UC UR C ND
-	v2CDP = []int64{0, 1, 3, 4, 5, 0}                                                    // N L LM MH H ND (tenths)
-	v2TD  = []int64{0, 25, 75, 100, 100}                                                 // N L M H ND (hundredths)
-	v2R   = []*big.Rat{rat("0.5"), rat("1.0"), rat("1.51"), rat("1.0")}                  // L M H ND
+	v2AV  = []*big.Rat{rat("0.395"), rat("0.646"), rat("1.0")}          // L A N
+	v2AC  = []*big.Rat{rat("0.35"), rat("0.61"), rat("0.71")}           // H M L
+	v2Au  = []*big.Rat{rat("0.45"), rat("0.56"), rat("0.704")}          // M S N
+	v2CIA = []*big.Rat{rat("0"), rat("0.275"), rat("0.660")}            // N P C
+	v2E   = []int64{85, 90, 95, 100, 100}                               // U POC F H ND (hundredths)
+	v2RL  = []int64{87, 90, 95, 100, 100}                               // OF TF W U ND
+	v2RC  = []int64{90, 95, 100, 100}                                   // UC UR C ND
+	v2CDP = []int64{0, 1, 3, 4, 5, 0}                                   // N L LM MH H ND (tenths)
+	v2TD  = []int64{0, 25, 75, 100, 100}                                // N L M H ND (hundredths)
+	v2R   = []*big.Rat{rat("0.5"), rat("1.0"), rat("1.51"), rat("1.0")} // L M H ND
 )
 
 // roundSetRat rounds an exact value (in score units) to tenths, returning both neighbours at a tie.
@@ -88,13 +88,13 @@ func roundSetInt(num, den int64) TenthSet {
 }
 
 type v2Model struct {
-	expl    [27]*big.Rat       // AV + 3*AC + 9*Au
-	impact  [27]*big.Rat       // C + 3*I + 9*A   (uncapped Impact of the base equation)
-	adjImp  [27 * 64]*big.Rat  // (C,I,A) + 27*(CR + 4*IR + 16*AR), capped at 10
-	base    [27][27]TenthSet   // [expl][impact]
+	expl    [27]*big.Rat      // AV + 3*AC + 9*Au
+	impact  [27]*big.Rat      // C + 3*I + 9*A   (uncapped Impact of the base equation)
+	adjImp  [27 * 64]*big.Rat // (C,I,A) + 27*(CR + 4*IR + 16*AR), capped at 10
+	base    [27][27]TenthSet  // [expl][impact]
 	adjBase [27][27 * 64]TenthSet
-	tempTab [120][100]TenthSet    // [tenths+v2off][E + 5*RL + 25*RC]
-	envTab  [120][6][5]TenthSet   // [tenths+v2off][CDP][TD]
+	tempTab [120][100]TenthSet  // [tenths+v2off][E + 5*RL + 25*RC]
+	envTab  [120][6][5]TenthSet // [tenths+v2off][CDP][TD]
 	impactF [27]float64
 	explF   [27]float64
 }
@@ -242,4 +242,3 @@ func V2Score(a Assignment) V2Scores {
 	r.Expl = m.explF[e]
 	return r
 }
-
